@@ -45,6 +45,15 @@ def compare(ctx, job, m, o, tag, failed):
         if c["frame"] == frame:
             cnt[c["node"]] = cnt.get(c["node"], 0) + 1
     ref_cnt = aux["cnt"] if isinstance(aux["cnt"], dict) else {}
+    if meta["shape"] == "explicit":
+        # the declared topology has an obvious sequential meaning (meta["sequential"]); the verdict compares the
+        # real run with it directly (the engine model below is name-based like the runtime)
+        want = {n: k for n, k in meta["sequential"]}
+        if o["status"] != "completed" or any(cnt.get(n, 0) != k for n, k in want.items()):
+            return ctx.violation("explicit-edges-loop-ignores-declared-topology", wit,
+                                 f"declared topology add_query->generate->add_response->gate, gate continues {meta['n_cont']} times: "
+                                 f"sequential loop runs {want}, real run: status {o['status']}/{o['err']['kind']}, executions {cnt}")
+        return False
     if meta["shape"] == "shared":
         ref_cnt = {n: 10 ** 6 for n in loop_nodes(meta)}      # no sequential reference for this shape: compared with the model below
     if meta["shape"] == "oneshot":
@@ -132,6 +141,13 @@ def make_pairs(tier, rng):
                 j = gen.job(0, prog, prov, mode=mode)
                 j["meta"] = meta
                 pairs.append((j, f"shared-accumulators/{gk}/N{n}"))
+    for n in range(0, 3):
+        for gk in ("route", "ifelse"):
+            for mode in ("sync", "async"):
+                prog, prov, meta = gen.explicit_edges_loop(n, gk)
+                j = gen.job(0, prog, prov, mode=mode)
+                j["meta"] = meta
+                pairs.append((j, f"explicit-edges/{gk}/N{n}"))
     for i, (j, _) in enumerate(pairs):
         j["id"] = i + 1
     return pairs
